@@ -11,11 +11,13 @@ import (
 	"fmt"
 	"io"
 	"net"
+	"os"
 	"runtime"
 	"strconv"
 	"strings"
 	"sync"
 	"sync/atomic"
+	"syscall"
 	"testing"
 	"time"
 
@@ -123,27 +125,30 @@ func (l vConnLog) Debug(format string, fields ...LogField) {
 		}
 	}
 }
+
 var errVOtherCmd = errors.New("verif: command failed (other)")
 
 type vConnEngine struct {
-	ev    *vEvents
-	t0    time.Time
-	mu    sync.Mutex
-	dials []string // outcomes consumed by successive Dial calls: ok | fail | fatal | hang
-	conns []string // outcomes consumed by successive OnConnect calls: ok | fail | fatal
-	nd    int
-	nc    int
-	staged  *vFakeXp
-	current *vFakeXp
-	nxp     int
-	inDial  int32
-	hang    chan struct{}
-	conn    *Connection
-	cmds    map[string]*vCmd
-	cmu     sync.Mutex
+	ev              *vEvents
+	t0              time.Time
+	mu              sync.Mutex
+	dials           []string // outcomes consumed by successive Dial calls: ok | fail | fatal | hang
+	conns           []string // outcomes consumed by successive OnConnect calls: ok | fail | fatal
+	nd              int
+	nc              int
+	staged          *vFakeXp
+	current         *vFakeXp
+	nxp             int
+	inDial          int32
+	hang            chan struct{}
+	conn            *Connection
+	cmds            map[string]*vCmd
+	cmu             sync.Mutex
 	holdNext        int32
 	holdConn        int32
 	connHang        chan struct{}
+	holdDisc        int32
+	discHang        chan struct{}
 	climu           sync.Mutex
 	clients         []vCliState
 	wmu             sync.Mutex
@@ -200,6 +205,19 @@ func (ce *vConnEngine) Dial(ctx context.Context) (Transporter, error) {
 	case "fail":
 		ce.ev.add("dial-end/%d/fail", i)
 		return nil, errVRetriableDial
+	case "dns", "opdns", "timeout", "refused":
+		// failure classes a real dialer produces; each is one failed attempt like any other
+		ce.ev.add("dial-end/%d/fail", i)
+		var e error = &net.DNSError{Err: "no such host", Name: "verif.invalid", IsNotFound: true}
+		switch out {
+		case "opdns":
+			e = &net.OpError{Op: "dial", Net: "tcp", Err: e}
+		case "timeout":
+			e = &net.OpError{Op: "dial", Net: "tcp", Err: os.ErrDeadlineExceeded}
+		case "refused":
+			e = &net.OpError{Op: "dial", Net: "tcp", Err: syscall.ECONNREFUSED}
+		}
+		return nil, e
 	case "fatal":
 		ce.ev.add("dial-end/%d/fatal", i)
 		return nil, errVFatalDial
@@ -308,6 +326,15 @@ func (ce *vConnEngine) OnDoCommandError(err error, d time.Duration) {
 }
 func (ce *vConnEngine) OnDisconnected(ctx context.Context, st DisconnectStatus) {
 	ce.ev.add("ondisconnected/%d/t=%d", st, ce.ms())
+	if atomic.CompareAndSwapInt32(&ce.holdDisc, 1, 0) {
+		// a handler that is slow to return from the announcement
+		ce.ev.add("ondisconnected-held")
+		select {
+		case <-ce.discHang:
+		case <-time.After(8 * time.Second):
+			ce.ev.add("timeout/held-ondisconnected-never-released")
+		}
+	}
 }
 func (ce *vConnEngine) ShouldRetry(name string, err error) bool {
 	_, ok := err.(vRetriableErr)
@@ -330,7 +357,7 @@ func (b *vZeroBackoff) NextBackOff() time.Duration {
 	}
 	return time.Millisecond
 }
-func (b *vZeroBackoff) Reset()                     { b.n = 0 }
+func (b *vZeroBackoff) Reset() { b.n = 0 }
 
 func vErrClassConn(err error) string {
 	switch err {
@@ -379,7 +406,7 @@ func (ce *vConnEngine) settle() {
 }
 
 func vRunConn(c vCase) []string {
-	ce := &vConnEngine{ev: &vEvents{}, t0: time.Now(), hang: make(chan struct{}), connHang: make(chan struct{}), cmds: map[string]*vCmd{}, goCmd: map[int64]vGoCmd{}}
+	ce := &vConnEngine{ev: &vEvents{}, t0: time.Now(), hang: make(chan struct{}), connHang: make(chan struct{}), discHang: make(chan struct{}), cmds: map[string]*vCmd{}, goCmd: map[int64]vGoCmd{}}
 	if s := c.get("dials"); s != "" && s != "-" {
 		ce.dials = strings.Split(s, ",")
 	}
@@ -557,6 +584,14 @@ func vRunConn(c vCase) []string {
 			case ce.connHang <- struct{}{}:
 			default:
 			}
+		case "holddisc":
+			atomic.StoreInt32(&ce.holdDisc, 1)
+		case "releasedisc":
+			atomic.StoreInt32(&ce.holdDisc, 0)
+			select {
+			case ce.discHang <- struct{}{}:
+			default:
+			}
 		case "holddial":
 			atomic.StoreInt32(&ce.holdNext, 1)
 		case "waitdelay": // waitdelay/<n>: n connect delays have ended
@@ -621,6 +656,7 @@ func vRunConn(c vCase) []string {
 	go ce.conn.Shutdown()
 	close(ce.hang)
 	close(ce.connHang)
+	close(ce.discHang)
 	time.Sleep(2 * time.Millisecond)
 	return evs
 }
